@@ -305,6 +305,8 @@ func (s *Handler) ReloadConf(newConf *conf.Path) {
 	ctx := s.ctx
 
 	if !s.running {
+		// store the new configuration, that is used on next start
+		s.Conf = newConf
 		return
 	}
 
